@@ -22,6 +22,13 @@ A `chan` case holds two channels (`Chan.Pair`): `b <op>` addresses the second on
 `a.senders[i].clone_from(&b.senders[j])` (answer `sender <new id in the channel of j>`, `woke` = the
 wake-up caused by the drop of the handle's old value).
 
+Re-entrant wakers: `avail h w` with `w = 6, 7` registers a *taking* inline waker — woken by a guard drop
+it polls inline, takes the freed slot (`get()`), and the next task asks `available` with the counting
+waker `w - 4`, all inside `wake()`: `dropped saw=.. took=<guard> next=<b> woke=w` (`Counter.stepRe`).
+In the `lw` engine `reg 4` / `reg 5` register a waker that, woken, registers waker 1 / itself on the same
+`LocalWaker` from inside `wake()`: `done rereg=<was> woke=w` (`LocalWaker.stepRe`).  Capacities are any
+`usize` (up to 20 digits).
+
 `recv w` polls the pending `recv()` future (a fresh one if none is pending), `recvNew w` drops a pending
 one first; the future has no state, so both are `Chan.Op.poll .recv w` here.  `dbg` of a `LocalWaker`
 is the constant `LocalWaker` and is answered here without the model.
@@ -39,8 +46,10 @@ def init : State := .idle
 
 def nWakers : Nat := 4
 
-/-- ids `4, 5`: inline-polling wakers (`Counter.inlineWaker`), accepted by the counter's `avail` only -/
-def nInline : Nat := 2
+/-- ids `4..7`: inline-polling wakers (`Counter.inlineWaker`; `6, 7` also take the freed slot and let the
+next task ask: `Counter.takerWaker`), accepted by the counter's `avail` only.  In the `lw` engine `reg`
+accepts the re-entrant wakers `4, 5` (`LocalWaker.callback`). -/
+def nInline : Nat := 4
 
 def wokeStr : Option WakerId → String
   | none => " woke=-"
@@ -97,6 +106,26 @@ def chanObs (op : Chan.Op) : Chan.Obs → String
 def num (s : String) : Option Nat :=
   if s.length = 0 ∨ s.length > 9 ∨ !s.all Char.isDigit then none else s.toNat?
 
+/-- a capacity: any `usize` (1..20 digits, at most 2^64 - 1) -/
+def capNum (s : String) : Option Nat :=
+  if s.length = 0 ∨ s.length > 20 ∨ !s.all Char.isDigit then none
+  else match s.toNat? with
+    | some n => if n < 18446744073709551616 then some n else none
+    | none => none
+
+/-- a guard drop with the callback of the task it woke: `dropped [saw=t,b] [took=<guard> next=<b>] woke=w` -/
+def counterObsRe : List Counter.Obs → String
+  | [o] => counterObs o
+  | [.dropped w saw, .guard id, .avail b] =>
+    "dropped" ++ (match saw with | some (n, b) => s!" saw={n},{b01 b}" | none => "") ++ s!" took={id} next={b01 b}" ++ wokeStr w
+  | _ => "?"
+
+/-- a wake with the callback of the waker it woke: `done [rereg=<was>] woke=w` -/
+def lwObsRe : List LocalWaker.Obs → String
+  | [o] => lwObs o
+  | [.woke w, .registered was] => s!"done rereg={b01 was}" ++ wokeStr w
+  | _ => "?"
+
 def counterOp : List String → Option Counter.Op
   | ["acquire", h] => (num h).map .acquire
   | ["drop", g] => (num g).map .drop
@@ -114,7 +143,7 @@ def counterOp : List String → Option Counter.Op
 
 def lwOp : List String → Option LocalWaker.Op
   | ["reg", w] => match num w with
-    | some w => if w < nWakers then some (.register w) else none
+    | some w => if w < nWakers + 2 then some (.register w) else none
     | none => none
   | ["wake"] => some .wake
   | ["take"] => some .take
@@ -176,11 +205,11 @@ def pairObs : Chan.POp → List Chan.Obs → String
 
 def step (st : State) (line : String) : State × String :=
   match words line with
-  | ["case", _, "counter", cap] => match num cap with
+  | ["case", _, "counter", cap] => match capNum cap with
     | some cap => (.counter (Counter.init cap), "ok")
     | none => (.idle, "bad-op")
   -- `probe`: the harness's oracle also asks `available` after every operation where asking changes nothing
-  | ["case", _, "counter", cap, "probe"] => match num cap with
+  | ["case", _, "counter", cap, "probe"] => match capNum cap with
     | some cap => (.counter (Counter.init cap), "ok")
     | none => (.idle, "bad-op")
   | ["case", _, "lw"] => (.lw {}, "ok")
@@ -192,12 +221,12 @@ def step (st : State) (line : String) : State × String :=
     | .idle => (st, "bad-op")
     | .counter s => match counterOp ws with
       | none => (st, "bad-op")
-      | some op => match Counter.step s op with
+      | some op => match Counter.stepRe s op with
         | none => (st, "bad-op")
-        | some (s', o) => (.counter s', counterObs o)
+        | some (s', os) => (.counter s', counterObsRe os)
     | .lw l => match lwOp ws with
       | none => if ws = ["dbg"] then (st, "dbg LocalWaker" ++ wokeStr none) else (st, "bad-op")
-      | some op => (.lw (LocalWaker.step l op).1, lwObs (LocalWaker.step l op).2)
+      | some op => (.lw (LocalWaker.stepRe l op).1, lwObsRe (LocalWaker.stepRe l op).2)
     | .chan p => match pairOp ws with
       | none => (st, "bad-op")
       | some pop => match Chan.Pair.step p pop with
